@@ -58,6 +58,63 @@ theorem C01_split_ws_old_witness :
     (splitWsOld 6 9 0 [⟨0, 7, 0⟩, ⟨7, 8, 266⟩, ⟨8, 20, 290⟩]).map (fun p => (p.t0, p.t1, p.r0, p.r1))
       = [(6, 7, 0, 1), (7, 8, 1, 3), (9, 9, 3, 3)] := by decide
 
+/-- the slice of the list that contains the element's end -/
+def lastOf (e1 : Nat) : List Lit → Option Lit
+  | [] => none
+  | l :: rest => if e1 ≤ l.te then some l else lastOf e1 rest
+
+/-- An unsplittable element spanning literal slices gets the source slice that starts where its first character sits in
+    the *first* slice and ends where its last character sits in the slice containing its end — whatever lies between
+    (the stash set at the first spill-over is never overwritten). -/
+theorem C01_span_source (e0 e1 : Nat) (first : Lit) (rest : List Lit)
+    (h0 : e0 < first.te) (hc : Covers e1 e0 (first :: rest)) :
+    ∃ last, lastOf e1 (first :: rest) = some last ∧
+      spanSrc e0 e1 none (first :: rest) = some ((e0 : Nat) + off first, (e1 : Nat) + off last) := by
+  -- generalise over an already stashed start
+  have gen : ∀ (ls : List Lit) (pos : Nat) (st : Int), Covers e1 pos ls → e0 ≤ pos → pos < e1 → (∀ l ∈ ls, e0 < l.te) →
+      ∃ last, lastOf e1 ls = some last ∧ spanSrc e0 e1 (some st) ls = some (st, (e1 : Nat) + off last) := by
+    intro ls
+    induction ls with
+    | nil => intro pos st hcv _ hlt _; simp only [Covers] at hcv; omega
+    | cons l rest ih =>
+      intro pos st hcv hp hlt hall
+      simp only [Covers] at hcv
+      obtain ⟨c1, c2, c3⟩ := hcv
+      simp only [spanSrc, lastOf]
+      by_cases ha : e1 ≤ l.te
+      · simp only [ha, if_true]; exact ⟨l, rfl, by simp⟩
+      · simp only [ha, if_false]
+        have hne : (e0 == l.te) = false := by
+          have := hall l (by simp); simp; omega
+        simp only [hne, Bool.false_eq_true, if_false, Option.getD_some]
+        exact ih l.te st c3 (by omega) (by omega) (fun x hx => hall x (by simp [hx]))
+  simp only [Covers] at hc
+  obtain ⟨c1, c2, c3⟩ := hc
+  simp only [spanSrc, lastOf]
+  by_cases ha : e1 ≤ first.te
+  · simp only [ha, if_true]; exact ⟨first, rfl, by simp⟩
+  · simp only [ha, if_false]
+    have hne : (e0 == first.te) = false := by simp; omega
+    simp only [hne, Bool.false_eq_true, if_false, Option.getD_none]
+    have hall : ∀ l ∈ rest, e0 < l.te := by
+      -- slices follow each other: every later slice ends after the first one does
+      have mono : ∀ (ls : List Lit) (pos : Nat), Covers e1 pos ls → ∀ l ∈ ls, pos < l.te := by
+        intro ls
+        induction ls with
+        | nil => intro pos _ l hl; simp at hl
+        | cons x xs ihx =>
+          intro pos hcv l hl
+          simp only [Covers] at hcv
+          rcases List.mem_cons.mp hl with rfl | hl'
+          · exact hcv.2.1
+          · have := ihx x.te hcv.2.2 l hl'; omega
+      intro l hl
+      have := mono rest first.te c3 l hl
+      omega
+    exact gen rest first.te _ c3 (by omega) (by omega) hall
+
+example : spanSrc 2 9 none [⟨0, 4, 0⟩, ⟨4, 6, 20⟩, ⟨6, 12, 40⟩] = some (2, 43) := by decide
+
 example : (splitWs 6 9 0 [⟨0, 7, 0⟩, ⟨7, 8, 266⟩, ⟨8, 20, 290⟩]).map (fun p => (p.t0, p.t1, p.s0, p.s1, p.r0, p.r1))
       = [(6, 7, 6, 7, 0, 1), (7, 8, 266, 267, 1, 2), (8, 9, 290, 291, 2, 3)] := by decide
 
